@@ -2,7 +2,7 @@
 import itertools
 import numpy as np
 
-from checks.common import Unit, D
+from checks.common import Unit, D, dderiv
 from vf.sym import _isinf
 
 EXPLANATION = ("Every datafit accessor is executed on symbolic (X, y, w); derivatives are obtained from the datafit's own "
@@ -148,40 +148,18 @@ def u_datafit(h, name, n, p, pattern, ycombo=None):
         df_s = df
     if hasattr(df_s, 'initialize_sparse'):
         df_s.initialize_sparse(Xs.data, Xs.indptr, Xs.indices, y)
-    if h.mode != 'sym':
-        # concrete replay: finite differences of the real value
-        def fd(dxw, dw=None):
-            e = 1e-6
-            ww = w if dw is None else w + e * dw
-            wm = w if dw is None else w - e * dw
-            return (df.value(y, ww, Xw + e * dxw) - df.value(y, wm, Xw - e * dxw)) / (2 * e)
-        for j in range(p):
-            dw = np.zeros(p)
-            if svc:
-                dw[j] = 1.0
-            ref = fd(X[:, j].copy(), dw if svc else None)
-            if hasattr(df, 'gradient_scalar'):
-                g = df.gradient_scalar(X, y, w, Xw, j)
-                h.observe('grad%d' % j, g)
-                h.ensure('gradient_scalar[%d]' % j, abs(g - ref) <= 1e-4 * (abs(ref) + 1))
-            if hasattr(df_s, 'gradient_scalar_sparse'):
-                gs = df_s.gradient_scalar_sparse(Xs.data, Xs.indptr, Xs.indices, y, Xw, j)
-                h.ensure('gradient_scalar_sparse[%d]' % j, abs(gs - ref) <= 1e-4 * (abs(ref) + 1))
-        if hasattr(df_s, 'full_grad_sparse'):
-            fg = df_s.full_grad_sparse(Xs.data, Xs.indptr, Xs.indices, y, Xw)
-            for j in range(p):
-                dw = np.zeros(p)
-                if svc:
-                    dw[j] = 1.0
-                ref = fd(X[:, j].copy(), dw if svc else None)
-                h.ensure('full_grad_sparse[%d]' % j, abs(fg[j] - ref) <= 1e-4 * (abs(ref) + 1))
-        return
-    # --- derivatives of the real value() via dual numbers
-    dvals = []
-    for j in range(p):
-        Xw_d = h.arr([Dual(Xw[i], X[i, j]) for i in range(n)])
-        w_d = h.arr([Dual(w[k], 1.0 if (svc and k == j) else 0.0) for k in range(p)]) if svc else w
-        dvals.append(_tan(df.value(y, w_d, Xw_d)))
+    # --- derivatives of the real value(): dual numbers (symbolic) / finite differences (concrete replay)
+    Xw_l = [Xw[i] for i in range(n)]
+    w_l = [w[k] for k in range(p)]
+
+    def dval(j):
+        if svc:
+            # value depends on w directly as well: move (w, Xw) jointly
+            def f(z):
+                return df.value(y, z[:p], z[p:])
+            return dderiv(h, f, w_l + Xw_l, [1.0 if k == j else 0.0 for k in range(p)] + [X[i, j] for i in range(n)])
+        return dderiv(h, lambda z: df.value(y, w, z), Xw_l, [X[i, j] for i in range(n)])
+    dvals = [dval(j) for j in range(p)]
     for j in range(p):
         if hasattr(df, 'gradient_scalar'):
             g = df.gradient_scalar(X, y, w, Xw, j)
@@ -193,8 +171,8 @@ def u_datafit(h, name, n, p, pattern, ycombo=None):
     if hasattr(df, 'raw_grad'):
         rg = df.raw_grad(y, Xw)
         for i in range(n):
-            Xw_d = h.arr([Dual(Xw[k], 1.0 if k == i else 0.0) for k in range(n)])
-            h.ensure('raw_grad[%d]' % i, h.eq(rg[i], _tan(df.value(y, w, Xw_d))))
+            ref = dderiv(h, lambda z: df.value(y, w, z), Xw_l, [1.0 if k == i else 0.0 for k in range(n)])
+            h.ensure('raw_grad[%d]' % i, h.eq(rg[i], ref))
     if hasattr(df, 'gradient'):
         gf = df.gradient(X, y, Xw)
         for j in range(p):
@@ -209,8 +187,7 @@ def u_datafit(h, name, n, p, pattern, ycombo=None):
             h.observe('fgs%d' % j, fg[j])
             h.ensure('full_grad_sparse[%d]' % j, h.eq(fg[j], dvals[j]))
     if hasattr(df, 'intercept_update_step') and meta['has_intercept']:
-        Xw_d = h.arr([Dual(Xw[i], 1.0) for i in range(n)])
-        db = _tan(df.value(y, w, Xw_d))
+        db = dderiv(h, lambda z: df.value(y, w, z), Xw_l, [1.0] * n)
         st = df.intercept_update_step(y, Xw)
         h.ensure('intercept_update_step==kappa*dF/db', h.eq(st, meta['kappa'] * db))
 
@@ -236,22 +213,16 @@ def u_group_datafit(h, name, layout, pattern, ycombo=None):
     h.observe('value', val)
     h.ensure('value==documented', h.eq(val, _ref_value(h, name, y, w, Xw, {})))
     Xs = h.csc(X, pattern)
-    if h.mode != 'sym':
-        for g in range(len(layout)):
-            gg = df.gradient_g(X, y, w, Xw, g)
-            h.ensure('finite[%d]' % g, h.is_finite(gg))
-        return
+    Xw_l = [Xw[i] for i in range(n)]
     for g, ind in enumerate(layout):
         gg = df.gradient_g(X, y, w, Xw, g)
         for k, j in enumerate(ind):
-            Xw_d = h.arr([Dual(Xw[i], X[i, j]) for i in range(n)])
-            ref = _tan(df.value(y, w, Xw_d))
+            ref = dderiv(h, lambda z: df.value(y, w, z), Xw_l, [X[i, j] for i in range(n)])
             h.ensure('gradient_g[%d][%d]' % (g, k), h.eq(gg[k], ref))
             if hasattr(df, 'gradient_g_sparse'):
                 gs = df.gradient_g_sparse(Xs.data, Xs.indptr, Xs.indices, y, w, Xw, g)
                 h.ensure('gradient_g_sparse[%d][%d]' % (g, k), h.eq(gs[k], ref))
-    Xw_d = h.arr([Dual(Xw[i], 1.0) for i in range(n)])
-    db = _tan(df.value(y, w, Xw_d))
+    db = dderiv(h, lambda z: df.value(y, w, z), Xw_l, [1.0] * n)
     st = df.intercept_update_step(y, Xw)
     h.ensure('intercept_update_step==kappa*dF/db', h.eq(st, (1 if name == 'QuadraticGroup' else 4) * db))
 
@@ -273,24 +244,23 @@ def u_multitask(h, n, p, T, pattern):
     import copy
     df_s = copy.copy(df) if h.mode == 'sym' else df
     df_s.initialize_sparse(Xs.data, Xs.indptr, Xs.indices, Y)
-    if h.mode != 'sym':
-        g = df.gradient_j(X, Y, W, XW, 0)
-        h.ensure('finite', h.is_finite(g))
-        return
+    XW_l = [XW[i, t] for i in range(n) for t in range(T)]
+
+    def dirv(vec_fn):
+        return [vec_fn(i, t) for i in range(n) for t in range(T)]
     fg = df_s.full_grad_sparse(Xs.data, Xs.indptr, Xs.indices, Y, XW)
     for j in range(p):
         gj = df.gradient_j(X, Y, W, XW, j)
         gjs = df_s.gradient_j_sparse(Xs.data, Xs.indptr, Xs.indices, Y, XW, j)
         for t in range(T):
-            XW_d = h.arr([[Dual(XW[i, tt], X[i, j] if tt == t else 0.0) for tt in range(T)] for i in range(n)])
-            ref = _tan(df.value(Y, W, XW_d))
+            ref = dderiv(h, lambda Z: df.value(Y, W, Z), XW_l, dirv(lambda i, tt: X[i, j] if tt == t else 0.0), shape=(n, T))
             h.ensure('gradient_j[%d][%d]' % (j, t), h.eq(gj[t], ref))
             h.ensure('gradient_j_sparse[%d][%d]' % (j, t), h.eq(gjs[t], ref))
             h.ensure('full_grad_sparse[%d][%d]' % (j, t), h.eq(fg[j, t], ref))
     st = df.intercept_update_step(Y, XW)
     for t in range(T):
-        XW_d = h.arr([[Dual(XW[i, tt], 1.0 if tt == t else 0.0) for tt in range(T)] for i in range(n)])
-        h.ensure('intercept_update_step[%d]' % t, h.eq(st[t], _tan(df.value(Y, W, XW_d))))
+        ref = dderiv(h, lambda Z: df.value(Y, W, Z), XW_l, dirv(lambda i, tt: 1.0 if tt == t else 0.0), shape=(n, T))
+        h.ensure('intercept_update_step[%d]' % t, h.eq(st[t], ref))
 
 
 # ---- Cox -----------------------------------------------------------------------------------------
@@ -342,20 +312,12 @@ def u_cox(h, tm, s, efron, p=2, sparse_pattern=None):
     df.initialize(Xdummy, y)
     val = df.value(y, w, Xw)
     h.observe('value', val)
-    if h.mode != 'sym':
-        rg = df.raw_grad(y, Xw)
-        e = 1e-6
-        for i in range(n):
-            d = np.zeros(n)
-            d[i] = e
-            ref = (df.value(y, w, Xw + d) - df.value(y, w, Xw - d)) / (2 * e)
-            h.ensure('raw_grad[%d]' % i, abs(rg[i] - ref) <= 1e-4 * (abs(ref) + 1))
-        return
     h.ensure('value==partial-likelihood', h.eq(val, _cox_ref(h, tm, s, Xw, efron)))
     rg = df.raw_grad(y, Xw)
+    Xw_l = [Xw[k] for k in range(n)]
     for i in range(n):
-        Xw_d = h.arr([Dual(Xw[k], 1.0 if k == i else 0.0) for k in range(n)])
-        h.ensure('raw_grad[%d]' % i, h.eq(rg[i], _tan(df.value(y, w, Xw_d))))
+        ref = dderiv(h, lambda z: df.value(y, w, z), Xw_l, [1.0 if k == i else 0.0 for k in range(n)])
+        h.ensure('raw_grad[%d]' % i, h.eq(rg[i], ref))
     # gradient / gradient_sparse on a symbolic X
     pat = sparse_pattern or [[1] * p for _ in range(n)]
     X = _mk_X(h, n, p, pat)
